@@ -22,6 +22,7 @@ def describe(tier):
     q = tier == 'quick'
     return dict(bounds=dict(encode_window=10000 if q else 1000000, powers='+-(2**k + d), k <= 200, d in -2..2',
                             decoder_inputs='every bit string of length <= %d, at pos 0 and after 1, 3, 8, 9 junk bits (length <= %d)' % ((15, 10) if q else (20, 15)),
+                            decoder_inputs_bytealigned_option='every bit string of length <= %d at pos 0 and 3 with options.bytealigned = True' % (10 if q else 13),
                             sequences='every sequence of <= %d codewords of mixed kinds with values in [-3, 4]' % (3 if q else 4),
                             truncation='every proper prefix of every codeword for |v| <= 40; every codeword + 1..2 extra bits',
                             routes=['Cls(ue=v)', "Cls('ue=v')", 'x.ue = v', "Dtype('ue').build(v)", "pack('ue', v)", "pack('ue=v')"]),
@@ -50,6 +51,7 @@ def shards(tier, seed):
             for lo in range(0, 1 << L, step):
                 out.append(dict(kind='dec', L=L, lo=lo, hi=lo + step))
     out.append(dict(kind='junk', n=10 if q else 15))
+    out.append(dict(kind='dec-ba', n=10 if q else 13))
     words = [(k, v) for k in G.KINDS for v in range(-3, 5) if not (v < 0 and k in G.UNSIGNED)]
     for part in families.chunk(words, len(words)):
         out.append(dict(kind='seq', first=part, depth=3 if q else 4))
@@ -73,6 +75,16 @@ def run_shard(shard, acc):
             L = shard['L']
             for v in range(shard['lo'], shard['hi']):
                 decode_all(bs, acc, format(v, f'0{L}b') if L else '', 0)
+        elif k == 'dec-ba':
+            # decoding is not a search: options.bytealigned must make no difference
+            core.set_options(bytealigned=True)
+            try:
+                for d in families.all_bits(shard['n']):
+                    decode_all(bs, acc, d, 0, ba=True)
+                    if len(d) >= 3:
+                        decode_all(bs, acc, '101' + d, 3, ba=True)
+            finally:
+                core.set_options()
         elif k == 'junk':
             for d in families.all_bits(shard['n']):
                 for j in (1, 3, 8, 9):
@@ -143,13 +155,13 @@ def encode_all(bs, acc, v, routes_full):
     acc.sample(dict(event=f"Bits(se={v}).bin; Bits('uie={abs(v)}').bin"))
 
 
-def decode_all(bs, acc, d, pos):
-    acc.state(('dec', d, pos))
+def decode_all(bs, acc, d, pos, ba=False):
+    acc.state(('dec', d, pos, ba))
     for ki, k in enumerate(G.KINDS):
         m = G.DEC[k](d, pos)
         cls = ('ConstBitStream', 'BitStream')[(len(d) + ki) % 2]
         s = getattr(bs, cls)(bin=d, pos=pos)
-        pre = [f"s = bitstring.{cls}(bin={d!r}, pos={pos})"]
+        pre = (["bitstring.options.bytealigned = True"] if ba else []) + [f"s = bitstring.{cls}(bin={d!r}, pos={pos})"]
         if m is None:
             exp = ('exc', 'ReadError')
             epos = pos
